@@ -13,7 +13,8 @@ RULE = ("ELF64/x86-64 and ELF32/i386 objects written by the harness (1-4 executa
         "finding prefix_token_read_as_mnemonic); one matcher object reused on a second listing builds the same stream as a fresh one; byte-continuation lines, labels, headers contribute nothing; no "
         "exception. Plus every listing under tests/assembly, and large listings (4 KiB - 2 MiB) whose header length puts every power-of-two byte "
         "offset in turn at a chosen column of an instruction line; every listing is parsed under a randomly chosen logger level (warning/info/debug). Non-trivial/distinct = distinct line shapes (prefixes + "
-        "mnemonic + operand-shape signature) that went through both readers.")
+        "mnemonic + operand-shape signature) that went through both readers. "
+        "Also: synthetic listings (demangled, variadic symbols), the same text through a named pipe, hinted-branch mnemonics judged on the record text.")
 FLOOR = {"quick": 300, "thorough": 1500}
 ANCHOR_HINTS = ["asm_manual_parser_w_regex", "gnu_objdump_parser_manual", "observers", "consumer"]
 REQUIRED_EVENTS = ["listings_compared", "block_boundary_listings"]
